@@ -174,7 +174,7 @@ pub fn run() -> i32 {
     let tier = ctx.tier;
     let gh_max = tier.pick(700usize, 2100);
     let max = tier.pick(2100usize, 4200);
-    ctx.rule = format!("full products per primitive, each cell compared with libsodium: BLAKE2b every (outlen 16..=64) x (no key | every key length 16..=64) x every input length 0..={} (classic one-shot, init/update/final, GenericHash<K,O> for 24 const instantiations); SHA-512, HMAC-SHA-512-256, Poly1305, SipHash-2-4: every length 0..={} x 5 keys x 4 contents (classic and object API); Poly1305 constructed operands (r/s corner values x all 1..=4-block strings over 5 block values + partial tails; accumulators solved to hit p-2..p+6, 2^130-6..2^130+6, 2p-2..2p+2 exactly); HSalsa20/HChaCha20 key x input alphabet, all 384 single-bit inputs, with/without custom constants; little-endian increment for every 1- and 2-byte value, all-0xff lengths 0..=16 and carry boundaries; verify functions: correct tag accepted, every single-bit mutation rejected; a corpus of the cells (every 3rd length) is written for the independent Python reference; non-trivial = cell executed in dryoc and libsodium", gh_max, max);
+    ctx.rule = format!("full products per primitive, each cell compared with libsodium: BLAKE2b every (outlen 16..=64) x (no key | every key length 16..=64) x every input length 0..={} (classic one-shot, init/update/final, GenericHash<K,O> for 24 const instantiations); SHA-512, HMAC-SHA-512-256, Poly1305, SipHash-2-4: every length 0..={} x 5 keys x 4 contents (classic and object API); every primitive additionally on large inputs (4 KiB..64 KiB+1, thorough to 1 MiB+1); Poly1305 constructed operands (r/s corner values x all 1..=4-block strings over 5 block values + partial tails; accumulators solved to hit p-2..p+6, 2^130-6..2^130+6, 2p-2..2p+2 exactly); HSalsa20/HChaCha20 key x input alphabet, all 384 single-bit inputs, with/without custom constants; little-endian increment for every 1- and 2-byte value, all-0xff lengths 0..=16 and carry boundaries; verify functions: correct tag accepted, every single-bit mutation rejected; a corpus of the cells (every 3rd length) is written for the independent Python reference; non-trivial = cell executed in dryoc and libsodium", gh_max, max);
     ctx.assume("reference 1: libsodium 1.0.18 in-process; reference 2: Python hashlib/hmac/big-integer re-computation of the dumped corpus (ref/spec_check.py), run by bin/check after this binary");
     ctx.assume("inputs of 2^64 bytes or more are excluded, as in the property");
 
@@ -319,6 +319,42 @@ pub fn run() -> i32 {
         }
     });
     ctx.absorb("sha512-hmac-poly1305-siphash", st);
+
+    // large inputs: thresholds that only engage for multi-KiB updates
+    let big: Vec<usize> = match tier {
+        Tier::Quick => vec![4095, 4096, 4097, 8191, 8192, 8193, 16384, 65537],
+        Tier::Thorough => vec![4095, 4096, 4097, 8191, 8192, 8193, 12288, 16383, 16384, 16385, 32768, 65535, 65536, 65537, 131072, 262145, 1048577],
+    };
+    let st = par_units(&big, |&len, st| {
+        let m = cval(seed, 3, len);
+        let k32: [u8; 32] = karr(seed ^ 0x7, 3);
+        let k16: [u8; 16] = karr(seed ^ 0x7, 3);
+        let mut ok = true;
+        for (outlen, key) in [(16usize, None), (32, None), (64, None), (32, Some(&k32[..])), (64, Some(&k32[..16])), (48, Some(&m[..64]))] {
+            let want = sodium::generichash(outlen, &m, key);
+            ok &= dry_generichash(outlen, &m, key).map(|g| g == want).unwrap_or(false);
+            if let Some(o) = gh_object(key.map(|k| k.len()).unwrap_or(0), outlen, &m, key) {
+                ok &= o == want;
+            }
+        }
+        let mut d = [0u8; 64];
+        crypto_hash_sha512(&mut d, &m);
+        ok &= d == sodium::sha512(&m);
+        let mut mac = [0u8; 32];
+        crypto_auth(&mut mac, &m, &k32);
+        ok &= mac == sodium::auth(&m, &k32);
+        let mut t16 = [0u8; 16];
+        crypto_onetimeauth(&mut t16, &m, &k32);
+        ok &= t16 == sodium::onetimeauth(&m, &k32);
+        let mut h8 = [0u8; 8];
+        crypto_shorthash(&mut h8, &m, &k16);
+        ok &= h8 == sodium::shorthash(&m, &k16);
+        st.eval(&("big", len), true, if ok { "large-input==libsodium" } else { "large-input-differs" });
+        if !ok {
+            fail(st, "large-input", "differs", format!("a primitive differs from libsodium on a {}-byte input", len), json!({"prim": "generichash", "outlen": 32, "key": Value::Null, "msg": hx(&m)}));
+        }
+    });
+    ctx.absorb("large-inputs", st);
 
     // Poly1305 constructed operands
     let mut rs: Vec<[u8; 16]> = vec![];
